@@ -357,6 +357,14 @@ func (c *wsConn) cancelCtx(req frame) {
 		return
 	}
 
+	// the decoded id can be of any JSON type; arrays and objects are not hashable
+	// and must not reach the map lookup below
+	id, err := normalizeID(id)
+	if err != nil {
+		log.Errorf("%s: %s", wsCancel, err)
+		return
+	}
+
 	c.handlingLk.Lock()
 	defer c.handlingLk.Unlock()
 
